@@ -19,7 +19,7 @@ from ..dataflow import linform, lin_eq, target_names
 from ..solver_model import Sweep, eval_calls, series_mutation
 from ..cfg import handler_types, raised_name, exc_is_a
 
-TECHNIQUE = ('static analysis: loop-bound derivation from counter/guard shape, dominance and must-pass-through on a hand-built CFG, reachability from mutation sites to raising sites, product searches (match count per iteration of a counterparty search; stepped-over error to commit; FX site with no external sector) with constants, sentinels and counters')
+TECHNIQUE = ('static analysis: loop-bound derivation from counter/guard shape, dominance and must-pass-through on a hand-built CFG, reachability from mutation sites to raising sites, product searches (match count per iteration of a counterparty search; stepped-over error to commit; FX site with no external sector) with constants, sentinels and counters; handler discipline around generation and solving; NaN walk shared with C02.R1')
 EXPLANATION = (
     'Derives the sweep bound from the counter initialisation, increment and cap test (must be on every path, bound <= cap+1); '
     'shows that nothing that can raise is reachable after the first TimeSeries append of a period (periods already solved '
